@@ -13,6 +13,7 @@ mod c09;
 mod c11;
 mod c12;
 mod c14;
+mod c15;
 mod c16;
 mod c17;
 mod c18;
@@ -38,6 +39,7 @@ fn dispatch(case: &Value) -> Value {
         "c11" => c11::run(k, case),
         "c12" => c12::run(k, case),
         "c14" => c14::run(k, case),
+        "c15" => c15::run(k, case),
         "c16" => c16::run(k, case),
         "c17" => c17::run(k, case),
         "c18" => c18::run(k, case),
@@ -47,10 +49,10 @@ fn dispatch(case: &Value) -> Value {
 }
 
 fn main() {
-    std::panic::set_hook(Box::new(|_| {}));
+    std::panic::set_hook(Box::new(|info| { if std::env::var("VH_DEBUG").is_ok() { eprintln!("{}", info); } }));
     let stdin = std::io::stdin();
-    let stdout = std::io::stdout();
-    let mut out = std::io::BufWriter::new(stdout.lock());
+    // the library prints diagnostics to stdout from the worker thread: never hold the stdout lock across a case,
+    // and mark result lines so that they can be told apart
     for line in stdin.lock().lines() {
         let line = line.unwrap();
         if line.trim().is_empty() {
@@ -73,9 +75,9 @@ fn main() {
             Ok(v) => v,
             Err(_) => json!({"timeout": true}),
         };
-        writeln!(out, "{}", v).unwrap();
+        let mut out = std::io::stdout().lock();
+        writeln!(out, "\n@@VH@@{}", v).unwrap();
         out.flush().unwrap();
     }
-    out.flush().unwrap();
     std::process::exit(0);
 }
